@@ -16,7 +16,7 @@ theorem kstep_frame (sh : Sh) (pc : KPc) (e : Env) (sh' : Sh) (pc' : KPc) (h : k
   | k1 a =>
     cases e <;> simp only [kstep, kfin, takeSlot] at h <;> (repeat' split at h) <;>
       simp only [Option.some.injEq, Prod.mk.injEq] at h <;> obtain ⟨rfl, rfl⟩ := h <;> simp
-  | k0 a | k3 a | k4 a | kf0 a | kf3 a | kt a =>
+  | k0 a | k3 a | k4 a | kf0 a | kf3 a | kt a | kd0 a | kd1c a | kd3 a | kd3c a =>
     simp only [kstep, kfin, takeSlot] at h <;> (repeat' split at h) <;>
       simp only [Option.some.injEq, Prod.mk.injEq] at h <;> obtain ⟨rfl, rfl⟩ := h <;> simp
 
@@ -138,7 +138,7 @@ theorem kstep_stale (sh : Sh) (pc : KPc) (e : Env) (sh' : Sh) (pc' : KPc) (h : k
   | k1 a =>
     cases e <;> simp only [kstep, kfin, takeSlot] at h <;> (repeat' split at h) <;>
       simp only [Option.some.injEq, Prod.mk.injEq] at h <;> obtain ⟨rfl, rfl⟩ := h <;> simp
-  | k0 a | k3 a | k4 a | kf0 a | kf3 a | kt a =>
+  | k0 a | k3 a | k4 a | kf0 a | kf3 a | kt a | kd0 a | kd1c a | kd3 a | kd3c a =>
     simp only [kstep, kfin, takeSlot] at h <;> (repeat' split at h) <;>
       simp only [Option.some.injEq, Prod.mk.injEq] at h <;> obtain ⟨rfl, rfl⟩ := h <;> simp
 
@@ -224,17 +224,17 @@ def Quiescent (s : St) : Prop := (∀ n : Nat, s.kpc n = .off) ∧ (∀ t : Nat,
 def quiescentB (s : St) : Bool :=
   (List.range s.sh.yields).all (fun n => s.kpc n == .off) && (List.range s.sh.maxE).all (fun t => s.epc t == .idle)
 
-theorem quiescent_of_bounded (ov : Bool) (p0 : Para) (ns : Nat) (fx : Bool) (sched : List (Actor × Env))
-    (h : quiescentB (run (init ov p0 ns fx) sched) = true) : Quiescent (run (init ov p0 ns fx) sched) := by
-  have hb := invBd_run _ sched (invBd_init ov p0 ns fx)
+theorem quiescent_of_bounded (ov : Bool) (p0 : Para) (ns : Nat) (fx dz : Bool) (sched : List (Actor × Env))
+    (h : quiescentB (run (init ov p0 ns fx dz) sched) = true) : Quiescent (run (init ov p0 ns fx dz) sched) := by
+  have hb := invBd_run _ sched (invBd_init ov p0 ns fx dz)
   simp only [quiescentB, Bool.and_eq_true, List.all_eq_true, List.mem_range, beq_iff_eq] at h
   constructor
   · intro n
-    by_cases hn : n < (run (init ov p0 ns fx) sched).sh.yields
+    by_cases hn : n < (run (init ov p0 ns fx dz) sched).sh.yields
     · exact h.1 n hn
     · exact hb.kB n (by omega)
   · intro t
-    by_cases ht : t < (run (init ov p0 ns fx) sched).sh.maxE
+    by_cases ht : t < (run (init ov p0 ns fx dz) sched).sh.maxE
     · exact h.2 t ht
     · exact hb.eB t (by omega)
 
